@@ -490,6 +490,19 @@ impl<'c, 's, W: Write> Writer<'c, 's, W> {
 	}
 }
 
+#[cfg(ten0_serde_avro_fast_verif)]
+impl<'c, 's, W: Write> Writer<'c, 's, W> {
+	/// Verification hook (only with `--cfg ten0_serde_avro_fast_verif`):
+	/// `(n_elements_in_block, bytes in the block buffer, whether a finished block awaits flushing)`
+	pub fn verif_state(&self) -> (u64, usize, bool) {
+		(
+			self.inner.n_elements_in_block,
+			self.inner.serializer_state.writer().len(),
+			self.inner.block_header_size.is_some(),
+		)
+	}
+}
+
 impl<'c, 's, W: Write> Drop for Writer<'c, 's, W> {
 	fn drop(&mut self) {
 		let panicking = std::thread::panicking();
